@@ -20,8 +20,9 @@ import (
 const tag = "c12"
 
 var U = &wl.Universe{
-	Keys:  []wl.Key{{Obj: "doc:1", Rel: "viewer", User: "user:a"}, {Obj: "doc:1", Rel: "viewer", User: "user:b"}, {Obj: "doc:2", Rel: "viewer", User: "user:a"}},
-	Conds: []wl.CondSpec{{}, {Name: "cx", HasCtx: true, X: 1}, {Name: "cx", HasCtx: true, X: 2}},
+	Keys: []wl.Key{{Obj: "doc:1", Rel: "viewer", User: "user:a"}, {Obj: "doc:1", Rel: "viewer", User: "user:b"}, {Obj: "doc:2", Rel: "viewer", User: "user:a"}},
+	// variant 3 (condition named, no context) is used with tuple key 0 only
+	Conds: []wl.CondSpec{{}, {Name: "cx", HasCtx: true, X: 1}, {Name: "cx", HasCtx: true, X: 2}, {Name: "cx"}},
 }
 
 var optVals = []string{"", "error", "ignore", "bogus"}
@@ -41,6 +42,9 @@ func allEvents(u *wl.Universe) []wl.Event {
 	var items []wl.Item
 	for k := 0; k < nk; k++ {
 		for c := range u.Conds {
+			if c == 3 && k != 0 {
+				continue
+			}
 			items = append(items, wl.Item{K: k, C: c})
 		}
 	}
@@ -319,7 +323,7 @@ func (w *runner) checkEvent(ctx context.Context, l live, hist []wl.Event, ref *w
 		if got {
 			devs = append(devs, dev{"accepts-what-the-reference-rejects/" + why + "@" + w.name, "Write succeeded; reference rejects it (" + why + "): " + c.Readable, c})
 		} else {
-			devs = append(devs, dev{"rejects-what-the-reference-accepts/" + why + "@" + w.name, "Write failed (" + errStr(err) + "); reference accepts it (" + why + "): " + c.Readable, c})
+			devs = append(devs, dev{rejectSig(w.u, ref, e, why, err) + "@" + w.name, "Write failed (" + errStr(err) + "); reference accepts it (" + why + "): " + c.Readable, c})
 		}
 	}
 	// read-back: skipped only when no statement that can change the database reached SQLite and the call failed
@@ -595,6 +599,21 @@ func (w *runner) crashRunner() *runner {
 	return w.crash
 }
 
+// rejectSig names the mechanism of a wrong rejection. One class is recognised from the case itself: the request
+// re-writes, under on_duplicate=ignore, a stored tuple whose condition has a name but no context, with the identical
+// condition, and the datastore answers "already exists with a different condition".
+func rejectSig(u *wl.Universe, before *wl.Ref, e wl.Event, why string, err error) string {
+	if e.OnDup == "ignore" && err != nil && strings.Contains(err.Error(), "different condition") {
+		for _, it := range e.Wr {
+			c := u.Conds[it.C]
+			if before.Cur[it.K] == it.C && c.Name != "" && !c.HasCtx {
+				return "ignore-rejects-identical-tuple/condition-without-context"
+			}
+		}
+	}
+	return "rejects-what-the-reference-accepts/" + why
+}
+
 // checkEventResult compares the outcome of a fault-free execution that already happened.
 func (w *runner) checkEventResult(ctx context.Context, l live, hist []wl.Event, ref, after *wl.Ref, want bool, why string, e wl.Event, err error) (bool, bool, []dev) {
 	var devs []dev
@@ -608,7 +627,7 @@ func (w *runner) checkEventResult(ctx context.Context, l live, hist []wl.Event, 
 		if got {
 			devs = append(devs, dev{"accepts-what-the-reference-rejects/" + why + "@" + w.name, "Write succeeded; reference rejects it (" + why + "): " + c.Readable, c})
 		} else {
-			devs = append(devs, dev{"rejects-what-the-reference-accepts/" + why + "@" + w.name, "Write failed (" + errStr(err) + "); reference accepts it (" + why + "): " + c.Readable, c})
+			devs = append(devs, dev{rejectSig(w.u, ref, e, why, err) + "@" + w.name, "Write failed (" + errStr(err) + "); reference accepts it (" + why + "): " + c.Readable, c})
 		}
 		return false, true, devs
 	}
@@ -850,7 +869,7 @@ func buildPlan(u *wl.Universe, o *core.Options) *plan {
 				if e.OnDup == "error" || e.OnMiss == "error" {
 					continue // "error" and "" parse to the same datastore option (part (i) runs both spellings)
 				}
-				if !o.Thorough() && (usesCond(e, 2) || usesKey(e, 2)) {
+				if !o.Thorough() && (usesCond(e, 2) || usesCond(e, 3) || usesKey(e, 2)) {
 					continue // quick: E4 requests name keys 0,1 and write conditions {none, cx{x:1}} (histories range over the whole universe)
 				}
 				r2 := s.ref.Clone()
@@ -930,7 +949,7 @@ func runE4(ctx context.Context, u *wl.Universe, o *core.Options, w *runner, j e4
 }
 
 const rule = "Part (i): breadth-first over Write histories; a state is (store contents, changelog) as the reference model computes it; from every state at " +
-	"history length < D every Write request of the alphabet (delete lists of <=2 of 3 tuple keys incl. a key named twice x write lists of <=2 of 9 (key,condition) items incl. " +
+	"history length < D every Write request of the alphabet (delete lists of <=2 of 3 tuple keys incl. a key named twice x write lists of <=2 of 10 (key,condition) items incl. " +
 	"same key twice x on_missing x on_duplicate, each in {\"\",error,ignore,bogus}; lists naming a key twice only with option pairs (\"\",\"\") and (ignore,ignore)) is executed through " +
 	"commands.WriteCommand on memory and SQLite; success must equal the reference's verdict and Read + ReadChanges must equal the reference after every event. " +
 	"Part (ii): for every history of length <= D4 (one per distinct state) and every request of the alphabet that passes request validation (options in {\"\",ignore}), on SQLite, every driver-level boundary k " +
@@ -985,7 +1004,7 @@ func Run(o *core.Options) int {
 	r.Set("e4_histories", p.e4States)
 	r.Set("e4_history_request_pairs", len(p.e4))
 	r.Assume(
-		"universe: 3 tuple keys (doc:1#viewer@user:a, doc:1#viewer@user:b, doc:2#viewer@user:a) x conditions {none, cx{x:1}, cx{x:2}}; model viewer: [user, user with cx]",
+		"universe: 3 tuple keys (doc:1#viewer@user:a, doc:1#viewer@user:b, doc:2#viewer@user:a) x conditions {none, cx{x:1}, cx{x:2}}, plus cx without context on key 0; model viewer: [user, user with cx]",
 		"requests go through commands.WriteCommand.Execute on the datastore (the gRPC Server.Write wrapper adds authz/model-id resolution only)",
 		"the order of the items of ONE request inside the changelog is not compared (only their multiset and the order of requests)",
 		"an unknown on_duplicate/on_missing value and a key named twice in one request are rejected requests in the reference (request validation)",
